@@ -4,7 +4,7 @@
 set -u
 c=$1; tier=${2:-quick}
 base=/tmp/isocheck.$$; rm -rf $base; mkdir -p $base
-rsync -a --exclude build --exclude replays --exclude .git /verif/ $base/verif/
+rsync -a --exclude build --exclude replays --exclude .git ${ISO_EXCLUDE:+--exclude $ISO_EXCLUDE} /verif/ $base/verif/
 ( cd $base/verif && timeout ${ISO_TIMEOUT:-1800} ./check $c $tier ); rc=$?
 rm -rf $base
 exit $rc
